@@ -8,7 +8,7 @@ From MptV Require Import C20.LayoutTypes C20.LayoutConv C20.Gen_Layout C20.Layou
   C20.LayoutRefineLine C20.LayoutRefineWorld C20.LayoutRefineText C20.LayoutRefineGraph.
 Local Open Scope Z_scope.
 
-Definition inv (o : anyobj) : Prop := match o with OAxis x => axis_inv x | _ => True end.
+Definition inv (o : anyobj) : Prop := match o with OAxis x => axis_inv x | OGraph x => graph_inv x | _ => True end.
 Definition same_kind (a b : anyobj) : Prop := kind_of a = kind_of b.
 
 Theorem set_refines o other name (s : osrc) :
@@ -36,7 +36,7 @@ Proof.
   - pose proof (axis_set_inv x y name s I IO) as H. destruct (axis_set x name (resolve s (OAxis y))); exact H.
   - destruct (line_set x name (resolve s (OLine y))); exact Logic.I.
   - destruct (text_set x name (resolve s (OText y))); exact Logic.I.
-  - destruct (graph_set x name (resolve s (OGraph y))); exact Logic.I.
+  - pose proof (graph_set_inv x y name s I IO) as H. destruct (graph_set x name (resolve s (OGraph y))); exact H.
   - destruct (world_set x name (resolve s (OWorld y))); exact Logic.I.
 Qed.
 
